@@ -39,8 +39,8 @@ CLAIMED = {
             "deterministic simulation + crash-point enumeration over each operation's request sequence x DB-order rotations",
             "DESIGN.md §3 C17"),
     "C06": ("exploration",
-            "Real RedisInput.Run() with the real memory Channel between a source double that implements Redis' PSYNC admission rules (current id, previous id + switch offset, backlog window) and an Output stub with a controllable stored position: a seeded product of source transitions (same id, failover, new id, trimmed backlog) x stored positions (kept, absent, back, forward, unknown id) x cache fates (kept, lost) x timing/fragmentation; per (re)connection the Output must receive the exact continuation from the stored position on the current history, or a complete source snapshot followed by the stream from its offset, byte-checked against keyed history functions.",
-            "Trusted: source double (PSYNC admission written from replication.c), Output stub semantics, keyed byte functions. Memory cache only; the real RedisOutput/target are replaced by the stub in this check.",
+            "Real RedisInput.Run() with the real Channel (memory, and disk over simfs incl. reopen after restart) between a source double that implements Redis' PSYNC admission rules (current id, previous id + switch offset, backlog window) and an Output stub with a controllable stored position: a seeded product of source transitions (same id, failover, new id, trimmed backlog) x stored positions (kept, absent, back, forward, unknown id) x cache fates (kept, lost) x timing/fragmentation; per (re)connection the Output must receive the exact continuation from the stored position on the current history, or a complete source snapshot followed by the stream from its offset, byte-checked against keyed history functions.",
+            "Trusted: source double (PSYNC admission written from replication.c), Output stub semantics, keyed byte functions. The real RedisOutput/target are replaced by the stub in this check.",
             "deterministic simulation with a PSYNC-speaking source double + byte-exact continuation oracle",
             "DESIGN.md §3 C06"),
     "C14": ("fault_enumeration",
